@@ -182,6 +182,9 @@ type item struct {
 
 // SiteKey renders an access site in a line-number independent way.
 func SiteKey(s int32) string {
+	if s == vsched.SiteClientRead {
+		return "harness:client:reads the result map its call returned:R"
+	}
 	if int(s) >= len(vsched.SiteTable) || s < 0 {
 		return fmt.Sprintf("site#%d", s)
 	}
@@ -195,6 +198,9 @@ func SiteKey(s int32) string {
 
 // SiteLoc renders file:line of a site (for messages).
 func SiteLoc(s int32) string {
+	if s == vsched.SiteClientRead {
+		return "the caller of the pool method"
+	}
 	if int(s) >= len(vsched.SiteTable) || s < 0 {
 		return fmt.Sprintf("site#%d", s)
 	}
